@@ -27,7 +27,7 @@ __CPROVER_decreases(s->stack.size - i)
 //@ contract
 /* import into a fresh object (C11: stack secrets do not reset on import) */
 __CPROVER_requires(SS_OK(self) && self->stack.size == 0)
-__CPROVER_assigns(self->stack.size, __CPROVER_object_whole(self->stack.data), __parse_end_char)
+__CPROVER_assigns(self->stack.size, __CPROVER_object_whole(self->stack.data), PARSE_ASSIGNS)
 /* C02: an accepted stack secret has 1..TMCG_MAX_CARDS entries, every index is below the size, and every
  * i below the size occurs as an index (ghost_i arbitrary; ghost_pos[] names the position): the index
  * component is a surjection of a finite set onto itself, i.e. a bijection.  A non-bijection is refused. */
@@ -36,7 +36,7 @@ __CPROVER_ensures(__CPROVER_return_value && ghost_i < self->stack.size ==> SSI(s
 __CPROVER_ensures(__CPROVER_return_value && ghost_i < self->stack.size ==>
                   ghost_pos[ghost_i] < self->stack.size && SSI(self, ghost_pos[ghost_i]) == ghost_i)
 //@ loop 1
-__CPROVER_assigns(i, self->stack.size, __CPROVER_object_whole(self->stack.data), ec, __parse_end_char)
+__CPROVER_assigns(i, self->stack.size, __CPROVER_object_whole(self->stack.data), ec, PARSE_ASSIGNS)
 __CPROVER_loop_invariant(i <= size && self->stack.size == i && 1 <= size && size <= MAXN)
 __CPROVER_loop_invariant(ghost_i < i ==> SSI(self, ghost_i) < size)
 __CPROVER_decreases(size - i)
